@@ -318,13 +318,28 @@ func (w *c14Worker) runRandom(res *runner.CaseResult, idx int, exact bool) {
 		// edits of one Update are generated against the state before the Update; keep them on different containers
 		conts := gen.Scan(r.doc.Root().Object, prof.MaxDepth)
 		seen := map[string]bool{}
+		var replaced []string // containers an earlier edit of this Update replaced or removed
+	pick:
 		for i := 0; i < n; i++ {
 			e := prof.Next(rng, conts, "A")
 			k := strings.Join(e.Path, "/")
 			if seen[k] {
 				continue
 			}
+			// indices of this edit were chosen in the state BEFORE the Update: do not aim
+			// them at a container that an earlier edit of the same Update swapped out
+			for _, rp := range replaced {
+				if k == rp || strings.HasPrefix(k, rp+"/") || (strings.HasSuffix(rp, "/#") && strings.HasPrefix(k, rp)) {
+					continue pick
+				}
+			}
 			seen[k] = true
+			if e.Op == "obj.set" || e.Op == "obj.del" {
+				replaced = append(replaced, strings.TrimPrefix(k+"/"+e.K, "/"))
+			}
+			if strings.HasPrefix(e.Op, "arr.") {
+				replaced = append(replaced, k+"/#")
+			}
 			es = append(es, e)
 		}
 		return c14Step{T: "update", E: es}, len(es) > 0
